@@ -2,11 +2,11 @@ CHECK = {
     "level": "exploration",
     "rule": ("geometry zoo of C03 + hex-array (all levels; involute / duplicate-surface inputs not "
              "judged) x points {(1) interior lattice n^3; (2) one oracle-placed representative per "
-             "distinct oracle volume chain (global 17^3/25^3 scan + per-universe-instance grids of the "
+             "distinct oracle volume chain (global 17^3/31^3 scan + per-universe-instance grids of the "
              "critical coordinates of the stored surfaces, so that every volume of every nested "
              "universe is sampled); (3) oracle-placed points next to every face of the located volume "
-             "at every level (foot point X on the surface, X -+ delta n, delta = 0.003/0.02(/0.08) x "
-             "scale, both sides, 1/2 foot points per (chain, level, face)); (4) the exactly degenerate interior "
+             "at every level (foot point X on the surface, X -+ delta n, delta = 0.003/0.02 (thorough: 0.001/0.003/0.02/0.08) x "
+             "scale, both sides, 1/4 foot points per (chain, level, face)); (4) the exactly degenerate interior "
              "points of the stored surfaces: sphere centres and up to 3 points on every cylinder axis, "
              "of every universe instance}; (1)+(2) also the "
              "midpoints of the first 3 segments along 3 rays, reached by navigation : find_safety(), "
@@ -24,13 +24,13 @@ CHECK = {
         "oracle makes no claim within 10 tol of a surface",
         "a violation at an exactly degenerate point (4) that disappears 1e-6 x scale beside it is "
         "reported under its own signature safety:face-ignored-at-exact-{cylinder-axis,sphere-centre}",
-        "volumes the oracle scan does not find (thinner than the 17^3/25^3 lattice and not delimited by "
+        "volumes the oracle scan does not find (thinner than the 17^3/31^3 lattice and not delimited by "
         "axis-aligned/centred surfaces of their own universe) get no representative",
     ],
     "bounds": {"quick": {"lattice": 5, "directions": 38, "sphere_points": 64, "scan_lattice": 17,
                          "foot_points_per_face": 1, "deltas": [0.003, 0.02]},
-               "thorough": {"lattice": 9, "directions": 62, "sphere_points": 200, "scan_lattice": 25,
-                            "foot_points_per_face": 2, "deltas": [0.003, 0.02, 0.08]}},
+               "thorough": {"lattice": 9, "directions": 62, "sphere_points": 200, "scan_lattice": 31,
+                            "foot_points_per_face": 4, "deltas": [0.001, 0.003, 0.02, 0.08]}},
     "parts": [
         {"name": "safety", "harness": "c11_safety", "flavour": "rel",
          "shards": {"quick": 16, "thorough": 16}, "deadline": {"quick": 90, "thorough": 900}},
